@@ -15,7 +15,7 @@ def all_datagrams(maxlen, alphabet):
 
 class C09(C01):
     ident = "C09"
-    extra_bins = ("c09port", "c09http")
+    extra_bins = ("c09port", "c09http", "c01cfg")
     technique = "Coq proof: classification total, monitor never reaches the internal-error path, TID non-interference; extracted-model correspondence"
     rule = ("transfer part: every datagram of length <= 4 (quick) / 5 (thorough) over {0,1,2,3,4,5,6,8,9,0x61,0xff} injected from "
             "the peer and from foreign addresses (other port, other host, and source port 0 whose ERROR 5 reply cannot be sent) at three points of a transfer (OACK outstanding, first block outstanding, last "
@@ -83,6 +83,9 @@ class C09(C01):
         # TID non-interference: the real transfer with and without foreign datagrams (sorted scripts)
         import c09_tid
         c09_tid.tid_checks(tier, rng, report)
+        # the limits the transfers are created with (an over-large max_block_size ends in EMSGSIZE on the wire)
+        import c01_cfg
+        c01_cfg.cfg_checks(tier, rng, report)
 
 
 if __name__ == "__main__":
